@@ -199,7 +199,8 @@ impl Case {
         }
         if c.switches.no_trailing_mclq {
             if let Some(last) = c.chunks.last_mut() {
-                let followed = last.mccv || last.mcse > 0 || last.mclv || last.extras != 0 || last.mcbb != 0;
+                // (followers that the parser never reads back would vanish on the first rebuild)
+                let followed = last.mccv || last.mcse > 0 || last.mclv;
                 if last.mclq != 0 && !followed {
                     // keep the liquid, give it a follower: sound emitters are valid in every version
                     last.mcse = 1;
@@ -278,23 +279,17 @@ impl Case {
         if self.blend > 0 {
             top.push('B');
         }
-        let pl = match (self.n_doodads > 0, self.n_wmo_pl > 0) {
-            (false, false) => "-",
-            (true, false) => "d",
-            (false, true) => "w",
-            (true, true) => "dw",
-        };
+        let liquid = self.chunks.iter().any(|s| s.mclq > 0);
+        let extras = union >> 8 & 0x7d != 0; // MCRF / split extras / MCBB present
         let sig = format!(
-            "{}:n{}:sets{}:parts{:04x}:alpha{:x}:top[{}]:pl{}:names{}:f{}",
+            "{}:n{}:sets{}:alpha{:x}:lq{}:x{}:top[{}]",
             self.version_name(),
             size,
             dsets,
-            union,
             alpha,
-            top,
-            pl,
-            self.name_style,
-            self.float_class
+            liquid as u8,
+            extras as u8,
+            top
         );
         let version_specific = self.version >= 3
             && (self.mtxf > 0 || self.mamp || self.mtxp > 0 || self.blend > 0 || self.chunks.iter().any(|s| s.mclv));
